@@ -6,15 +6,37 @@ from .smt import BOOL, FL, INT, REF
 from .values import T, Ty, Unsupported, Val, vbool, vfl, vint, vnone, vtuple
 
 
+import ast
+
+from . import elem as E
+
+
 def binop(ex, op, a, b, fr, inplace=False, node=None):
+    ks = {a.ty.kind, b.ty.kind}
+    if "elem" in ks and ks <= {"elem", "int"}:
+        return E.binop(ex, op, a, b)
+    if op == "BitAnd" and ks <= {"elembool"}:
+        return Val(Ty("elembool"), z3.And(a.t, b.t))
     raise Unsupported(f"array arithmetic {op} on {a.ty}, {b.ty}")
 
 
 def compare(ex, op, a, b, fr, node):
+    ks = {a.ty.kind, b.ty.kind}
+    if "elem" in ks and ks <= {"elem", "int"}:
+        return E.compare(ex, op, a, b)
+    if a.ty.kind == "elemmod2" and b.ty.kind == "int" and op == "Eq":
+        return Val(Ty("elembool"), E.flips_mod2_is(ex, a.meta["flips"], b.t.as_long()))
     raise Unsupported(f"array comparison {op} on {a.ty}, {b.ty}")
 
 
 def subscript(ex, v, sl, fr, node):
+    if v.ty.kind == "ebounds":
+        # bounds[:, 0] / bounds[:, 1]: the lower / upper bound of the generic coordinate
+        if isinstance(sl, ast.Tuple) and len(sl.elts) == 2 and isinstance(sl.elts[0], ast.Slice) and isinstance(sl.elts[1], ast.Constant):
+            which = sl.elts[1].value
+            if which in (0, 1):
+                return Val(Ty("elem"), v.meta["lower" if which == 0 else "upper"])
+        raise Unsupported("bounds subscript other than [:, 0] / [:, 1]")
     raise Unsupported(f"array subscript on {v.ty}")
 
 
@@ -27,6 +49,19 @@ def getattr(ex, v, attr, fr, node):
 
 
 def call(ex, name, fv_, args, kwargs, fr, node):
+    kinds = {a.ty.kind for a in args}
+    if kinds & {"elem", "elemflips", "elembool", "elemmod2"}:
+        if name == "numpy.clip":
+            return E.clip(ex, args[0], args[1], args[2])
+        if name == "numpy.where":
+            return E.where(ex, args[0], args[1], args[2])
+        if name == "numpy.floor_divide":
+            return E.floor_divide(ex, E.lift(ex, args[0]), E.lift(ex, args[1]))
+        if name == "numpy.mod":
+            if args[0].ty.kind == "elemflips":
+                return Val(Ty("elemmod2"), None, meta=dict(flips=args[0]))
+            return E.npmod(ex, E.lift(ex, args[0]), E.lift(ex, args[1]))
+        raise Unsupported(f"{name} on array elements")
     return NotImplemented
 
 
